@@ -44,16 +44,22 @@ static const char *nextVis(const char *ptr, const char *cont)
 	return ptr;
 }
 
+/* read values, nothing but white space may follow them */
 static int getValues(double *val, int len, const char *ptr)
 {
 	int i = 0;
 	while (i < len) {
 		ssize_t len = mpt_cdouble(val + i, ptr, 0);
 		if (len <= 0) {
-			return i;
+			break;
 		}
 		ptr += len;
 		++i;
+	}
+	while (*ptr) {
+		if (!isspace(*ptr++)) {
+			return MPT_ERROR(BadValue);
+		}
 	}
 	return i;
 }
